@@ -4,10 +4,12 @@
      E                               evaluate the query on the points read so far
    Output on E:
      R nds=<rank_list> fast=<fast_nds model> dc=<rank_list>
-     H spec=<hv_spec> a2=<hv2d model | ->
+     H spec=<hv_spec> a2=<hv2d model | -> a3=<hv3d model (3-D sweep) | -> wfg=<wfg model | -> (n <= 24)
+       lim=<wfg_limit (points 2..n) (point 1), sorted, p1,..,pd/..  | -> (n >= 2, n <= 24)
      K k=<k> spec=<contribs_spec by index> c2d=<contrib2d_ref by index | ->
      N k=<k> c2d=<contrib2d_noref value@index list | ->       (spec with implied reference: see c13.py)
-     S k=<k> best=<best_subset_hv> front=<front_size> | S SKIP *)
+     S k=<k> best=<best_subset_hv> front=<front_size> sel=<hssp2d model: 0/1 per point | EXC | -> hvsel=<hv_spec of the
+       points the model selects | ->            (sel only for n <= 16: libstdc++ insertion sort)  | S SKIP *)
 open C13_model
 
 let rec nat_of_int n = if n <= 0 then O else S (nat_of_int (n - 1))
@@ -50,7 +52,14 @@ let () =
          | "H" ->
            let v = hv_spec !refp s in
            let a2 = if !d = 2 then sz (hv2d !refp s) else "-" in
-           Printf.printf "H spec=%s a2=%s\n" (sz v) a2
+           let a3 = if !d = 3 then sz (hv3d !refp s) else "-" in
+           let w = if n <= 24 then sz (wfg !refp s) else "-" in
+           let lim = match s with
+             | p :: (_ :: _ as rest) when n <= 24 ->
+               let l = List.sort compare (List.map (List.map int_of_z) (wfg_limit rest p)) in
+               if l = [] then "none" else String.concat "/" (List.map (fun q -> String.concat "," (List.map string_of_int q)) l)
+             | _ -> "-" in
+           Printf.printf "H spec=%s a2=%s a3=%s wfg=%s lim=%s\n" (sz v) a2 a3 w lim
          | "K" ->
            if n = 0 then print_endline "K empty" else begin
              let c = contribs_spec !refp s in
@@ -76,7 +85,14 @@ let () =
          | "S" ->
            let m = int_of_nat (front_size s) in
            if keff < 1 || keff > m then print_endline "S SKIP"
-           else Printf.printf "S k=%d best=%s front=%d\n" keff (sz (best_subset_hv (nat_of_int keff) !refp s)) m
+           else begin
+             let sel, hvsel = if n <= 16 then
+                 (match hssp2d !refp s (nat_of_int keff) with
+                  | Some l -> (String.concat "" (List.map (fun b -> if b then "1" else "0") l), sz (hv_spec !refp (pick l s)))
+                  | None -> ("EXC", "-"))
+               else ("-", "-") in
+             Printf.printf "S k=%d best=%s front=%d sel=%s hvsel=%s\n" keff (sz (best_subset_hv (nat_of_int keff) !refp s)) m sel hvsel
+           end
          | q -> failwith ("bad query " ^ q))
       | _ -> failwith ("bad line " ^ l)
     done
